@@ -1,0 +1,9 @@
+//go:build !verif
+
+package desync
+
+import "context"
+
+func verifPool(fn string, ev string, worker, job int) {}
+
+func verifPoolCtx(fn string, ctx context.Context) {}
